@@ -63,7 +63,7 @@ fn externs_c17(r: &mut Rng) -> Vec<ExternSymbol> {
 
 pub fn gen(out: &mut Out, _sub: &str) {
     let mut rng = Rng::new(out.seed ^ 0xC17);
-    let n = out.size(500, 8_000);
+    let n = out.size(500, 12_000);
     for _ in 0..n {
         let mut r = rng.fork();
         let externs = externs_c17(&mut r);
